@@ -183,7 +183,23 @@ func (g *gen) evilToken(l live) (string, string) {
 		return b64.EncodeToString([]byte(`{"alg":"ES256","kid":"sig-es256-1"}`)) + "." + b64.EncodeToString([]byte(payload)) + "." + b64.EncodeToString(r.Bytes(64))
 	}
 	live := fmt.Sprintf(`"iss":"%s","sub":"alice","exp":%d,"iat":%d`, opfix.Issuer, g.now+600, g.now)
-	switch r.IntN(16) {
+	switch r.IntN(22) {
+	case 16, 17, 18: // the opaque-token decoder's own tolerances: skipped CR / LF, padding, lengths around 16 bytes / 22 characters
+		n, m, other := g.opaqueShape()
+		return g.opaqueString(n, m, other), ""
+	case 19: // few characters padded with line feeds to a plausible length
+		return g.opaqueString(drv.Pick(r, []int{0, 4, 8, 20}), 18+r.IntN(8), ""), ""
+	case 20: // a live opaque token with line breaks folded in (still opens) or one character dropped
+		if l.at != "" {
+			if r.Bool() {
+				h := len(l.at) / 2
+				return l.at[:h] + "\r\n" + l.at[h:], ""
+			}
+			return l.at[:len(l.at)-1-r.IntN(3)], ""
+		}
+		return "AAAA", ""
+	case 21:
+		return l.at + drv.Pick(r, []string{"=", "==", " ", "\n", "."}), ""
 	case 0:
 		return mk("null"), "f=F02"
 	case 1:
@@ -355,7 +371,7 @@ func routeCases(w *emit.Writer, g *gen, n int) {
 				nm = 0 // the valid request itself
 			}
 			for k := 0; k < nm; k++ {
-				switch r.IntN(26) {
+				switch r.IntN(29) {
 				case 0: // drop a parameter
 					if len(form) > 0 {
 						at := r.IntN(len(form))
@@ -464,6 +480,21 @@ func routeCases(w *emit.Writer, g *gen, n int) {
 					bearer = drv.Pick(r, []string{t, l.at, l.atJWT, l.rt})
 					if bearer == t && ft != "" {
 						ftag = ft
+					}
+				case 26, 27, 28: // opaque-token decoder tolerances in a token-valued form parameter
+					var idx []int
+					for k, p := range form {
+						if tokenParams[p.k] {
+							idx = append(idx, k)
+						}
+					}
+					if len(idx) > 0 {
+						if r.Bool() {
+							form[drv.Pick(r, idx)].v = g.opaqueString(drv.Pick(r, []int{0, 4, 8, 20, 21, 22}), 18+r.IntN(8), "")
+						} else {
+							n, m, other := g.opaqueShape()
+							form[drv.Pick(r, idx)].v = g.opaqueString(n, m, other)
+						}
 					}
 				case 21: // huge header
 					headers["X-Forwarded-For"] = strings.Repeat("1.2.3.4, ", 2000)
